@@ -7,6 +7,7 @@ resolution; capacity predicates; no dropped rebalancing result."""
 from engine import ir, dtable, match, cfg as cfgm
 from engine.ir import kids, walk, strip_casts, const_int, ref_of
 from rules import btcommon as B
+from rules import btprim
 
 BT = B.BT
 
@@ -854,6 +855,8 @@ def run(ck):
                 B.check_underflow(ck, t, t.one(name))
             if t.small:
                 B.check_capacity(ck, t, cfg)
+                ck.guarded(lambda: btprim.check_primitives(ck, t, cfg))
+                ck.guarded(lambda: btprim.check_insert(ck, tu, t, cfg))
     m = n_trees
     ck.floor("NODE-ALLOC-OWNER", 7 * m)
     ck.floor("FREE-ON-UNLINK", 2 * m)
@@ -868,3 +871,5 @@ def run(ck):
     ck.floor("RESULT-KEPT", 4 * m)
     ck.floor("UNDERFLOW-LEGAL", 4 * m)
     ck.floor("NODE-CAPACITY", m)
+    ck.floor("PRIMITIVE-EFFECT", 4 * m)      # eight primitives per small_traits tree
+    ck.floor("INSERT-EFFECT", m)            # leaf and inner level per small_traits tree
